@@ -18,7 +18,7 @@ CONSTANTS
   MaxDgrams = 0
   Binders = {}
   MaxBinds = 0
-  Faults = {"cutsrc", "endsrc", "cutsink"}
+  Faults = {"cutsrc", "endsrc", "cutsink", "softcut"}
   AdvMsgs = {}
   MaxAdv = 0
   MaxHandles = 1
